@@ -48,6 +48,8 @@ pub enum Term {
     Input(String),
     /// a `locals { name: <amount>, }` entry used by name
     Local(String, Box<Amount>),
+    /// `Ada(<input>.a)`: the first field of the input's datum (declared `datum_is: Rec`) as a quantity
+    AdaField(String),
 }
 
 #[derive(Clone, Debug, Default, PartialEq)]
@@ -240,6 +242,7 @@ impl Program {
             Term::MinUtxo(o) => format!("min_utxo({})", o),
             Term::Input(n) => n.clone(),
             Term::Local(n, _) => n.clone(),
+            Term::AdaField(i) => format!("Ada({}.a)", i),
         }
     }
 
@@ -632,7 +635,12 @@ pub fn native_script(k: u8) -> Vec<u8> {
         // all [ atLeast 2 [sig a, sig b, sig c] ]
         4 => [vec![0x82, 0x01, 0x81, 0x83, 0x03, 0x02, 0x83], sig(0xAA), sig(0xBB), sig(0xCC)].concat(),
         // atLeast 2^32 [sig a]
-        _ => [vec![0x83, 0x03, 0x1a, 0xff, 0xff, 0xff, 0xff, 0x81], sig(0xAA)].concat(),
+        5 => [vec![0x83, 0x03, 0x1a, 0xff, 0xff, 0xff, 0xff, 0x81], sig(0xAA)].concat(),
+        // all [sig Alice, sig Bob]: the key hashes of the program's own parties (a 2-of-2 policy whose
+        // keys the transaction may also list under `signers`)
+        6 => [vec![0x82, 0x01, 0x82], sig(0xA0), sig(0xA1)].concat(),
+        // sig Bob
+        _ => sig(0xA1),
     }
 }
 
@@ -851,6 +859,7 @@ fn gen_tx(t: &mut Tape, cfg: &GenCfg, p: &mut Program, k: usize) -> TxSpec {
     let datum_tx = cfg.profile == Profile::Rich && t.chance(1, if cfg.datum_bias { 1 } else { 3 });
     // overlapping queries: usually the same party for every block
     let common_from = t.index(np);
+    let mut regular_input_named_collateral = false;
     for i in 0..nin {
         let from = if t.chance(1, 5) { t.index(np) } else { common_from };
         let has_from = !t.chance(1, 6);
@@ -878,7 +887,14 @@ fn gen_tx(t: &mut Tape, cfg: &GenCfg, p: &mut Program, k: usize) -> TxSpec {
             // blocks are resolved in name order, and the collateral query is always called
             // "collateral": names sort before and after it
             // (no name that a parameter could also get: parameters are `<hint><n>` with hints such as a, b, q)
-            name: format!("{}{}", *t.pick(&["in", "ax", "src", "zed", "bx"]), i),
+            name: if i == nin - 1 && t.draw(10) == 9 {
+                // tx3 has no reserved words: a regular input may be called `collateral` (the resolver keys
+                // its queries by name; the collateral *block* is not declared in such a transaction)
+                regular_input_named_collateral = true;
+                "collateral".to_string()
+            } else {
+                format!("{}{}", *t.pick(&["in", "ax", "src", "zed", "bx"]), i)
+            },
             many: t.chance(1, 3),
             from: if has_from { Some(from) } else { None },
             ref_param,
@@ -889,7 +905,7 @@ fn gen_tx(t: &mut Tape, cfg: &GenCfg, p: &mut Program, k: usize) -> TxSpec {
             datum_int,
         });
     }
-    if t.chance(1, 5) {
+    if !regular_input_named_collateral && t.chance(1, 5) {
         let min = Some(Amount(vec![(false, Term::Ada(small_q(t, &mut params, "c")))]));
         // the collateral may be pinned to a reference too
         let ref_param = if t.chance(1, 5) {
@@ -1024,7 +1040,7 @@ fn gen_tx(t: &mut Tape, cfg: &GenCfg, p: &mut Program, k: usize) -> TxSpec {
             }
         }
         if t.chance(1, 10) {
-            let k = t.draw(6) as u8;
+            let k = t.draw(8) as u8;
             tx.directives.push(Directive::NativeWitness(k));
             // the attached native script may be the minting policy of a token of this program: its
             // policy id is then the script's hash (blake2b-224 of 0x00 || script), not a free choice
@@ -1088,6 +1104,10 @@ fn gen_tx(t: &mut Tape, cfg: &GenCfg, p: &mut Program, k: usize) -> TxSpec {
             let name = format!("lv{}", tx.locals.len());
             tx.locals.push((name.clone(), Amount(la.clone())));
             terms.push((false, Term::Local(name, Box::new(Amount(la)))));
+        } else if tx.inputs.iter().any(|x| x.datum_is && !x.datum_int && !x.many) && t.chance(1, 4) {
+            // a quantity read from the datum of an input
+            let src = tx.inputs.iter().find(|x| x.datum_is && !x.datum_int && !x.many).unwrap().name.clone();
+            terms.push((false, Term::AdaField(src)));
         } else if !p.env.is_empty() && t.chance(1, 2) {
             let e = p.env[t.index(p.env.len())].0.clone();
             terms.push((false, Term::Ada(Q::Param(e))));
@@ -1143,6 +1163,15 @@ fn gen_tx(t: &mut Tape, cfg: &GenCfg, p: &mut Program, k: usize) -> TxSpec {
     for q in donated.iter().chain(published.iter()) {
         change.push((true, Term::Ada(q.clone())));
     }
+    // now and then a long ledger-style expression: many small additions and deductions that cancel
+    // (each binary operator is one more level of nesting in the lowered IR)
+    if t.draw(25) == 24 {
+        let k = *t.pick(&[10usize, 18, 30]);
+        for _ in 0..k {
+            change.push((false, Term::Ada(Q::Lit(1))));
+            change.push((true, Term::Ada(Q::Lit(1))));
+        }
+    }
     // `fees` position varies (left-assoc chains)
     let pos = 1 + t.index(change.len());
     change.insert(pos.max(tx.inputs.len()), (true, Term::Fees));
@@ -1175,6 +1204,10 @@ fn gen_tx(t: &mut Tape, cfg: &GenCfg, p: &mut Program, k: usize) -> TxSpec {
                 params.push((name.clone(), Ty::Bytes));
                 tx.signer_params.push(name);
             }
+        }
+        // a native script over the parties' own keys usually comes with those parties as signers
+        if tx.directives.iter().any(|d| matches!(d, Directive::NativeWitness(6) | Directive::NativeWitness(7))) && np >= 2 && t.chance(2, 3) {
+            tx.signers = if t.chance(1, 2) { vec![0, 1] } else { vec![1, 0] };
         }
         if t.chance(1, 4) {
             let n = 1 + t.index(3);
